@@ -4,7 +4,7 @@
    Proofs/SchedCycleDue.v (forced close touches no flag; reference model).
    See manifest.d/C05.json for what is full / partial. *)
 From Hio Require Import Base.Prelude Base.AMap Base.Time Model.Sched Proofs.SchedFrame Proofs.SchedLife Proofs.SchedTop
-  Proofs.SchedCycleTick Proofs.SchedCycleDue Proofs.SchedCycleStop Proofs.SchedCycleDone Proofs.SchedCycleFlag.
+  Proofs.SchedCycleTick Proofs.SchedCycleDue Proofs.SchedCycleStop Proofs.SchedCycleDone Proofs.SchedCycleFlag Proofs.SchedCycleTree.
 
 (* Vocabulary (Proofs/SchedCycleStop.v), all for the root scheduler:
      entered fuel p        the state after Doist.enter, in which the cycle loop starts
@@ -312,6 +312,22 @@ Proof.
   exists res, dn. split; assumption.
 Qed.
 Print Assumptions C05_flat_done.
+
+(* nested static programs (forests of effect-free leaves and non-`always` DoDoers with
+   any tock, see C03_tree_refines): Doist.done and the final tyme are those of the tree
+   reference cycle model; the stop rule (1.-3.) and the flag rules (4b, 4c) apply as to
+   every program *)
+Theorem C05_tree_done :
+  forall (T : Type) (TT : Time T) (cycles fuel : nat) (p : prog T) (forest : list ptree),
+    tree_static p forest -> oof (do_run cycles fuel p) = false ->
+    exists blocks (dn : bool),
+      tref_run cycles p forest = Some (blocks, tyme (do_run cycles fuel p), dn) /\
+      get_done (do_run cycles fuel p) 0%N = Some dn.
+Proof.
+  intros T TT cycles fuel p forest St O. destruct (do_run_tree cycles fuel p forest St O) as (res & dn & R & _ & Dn).
+  exists res, dn. split; assumption.
+Qed.
+Print Assumptions C05_tree_done.
 
 (* ------------------------------------------------------------------ *)
 (* Non-vacuity.  A nested program with a limit that is not a multiple of tock:
